@@ -37,6 +37,8 @@ class C02(InvProp):
         if rng.chance(0.3):
             # rules with ELSE clauses on link statuses and valve settings (an ELSE action switches a link like any other action)
             gen.add_rules(rng, scn, rng.irange(1, 2), kinds=('time', 'clock'), p_else=1.0, p_compound=0.2)
+        if rng.chance(0.15):
+            gen.add_valve_bypass(rng, scn)    # a valve with a bypass pipe that a time control closes
         return scn
 
     def oracle(self, scn, out, c):
